@@ -87,10 +87,20 @@ impl RoutingTable {
             return false;
         }
 
-        if self
-            .buckets()
-            .values()
-            .any(|bucket| node.already_exists(&bucket.nodes))
+        // A node that is already in the table (same id at the same IP) is not subject
+        // to the IP limits again, otherwise it would be rejected because of its own entry
+        // and the bucket would never refresh its `last_seen`.
+        let already_known = self.buckets.get(&distance).is_some_and(|bucket| {
+            bucket
+                .iter()
+                .any(|existing| existing.id() == node.id() && existing.same_ip(&node))
+        });
+
+        if !already_known
+            && self
+                .buckets()
+                .values()
+                .any(|bucket| node.already_exists(&bucket.nodes))
         {
             return false;
         };
